@@ -24,7 +24,8 @@ ASSUMPTIONS = [
     "bosonic multi-weight states: the uncertainty relation is checked on the total covariance matrix (necessary condition)",
 ]
 REQUIRED_LABELS = {"all": ["backend:gaussian", "backend:bosonic", "backend:fock", "step:passive", "step:unitary", "step:loss",
-                           "fock_pure", "fock_mixed", "step:passive_exact", "step:postselected_homodyne", "step:postselected_heterodyne"]}
+                           "fock_pure", "fock_mixed", "step:passive_exact", "step:postselected_homodyne", "step:postselected_heterodyne",
+                           "prep:Catstate_opts", "prep:GKP_opts"]}
 
 PASSIVE = {"Rgate", "BSgate", "MZgate", "sMZgate", "Fouriergate"}
 UNITARY = PASSIVE | {"Dgate", "Sgate", "S2gate", "Xgate", "Zgate", "Pgate", "CXgate", "CZgate", "Kgate", "CKgate", "Vgate"}
@@ -135,11 +136,22 @@ def fock_case(draw):
     pure = draw(st.booleans())
     preps = []
     budget = D - 1
+    # 'full': exactly cutoff-1 photons in the register (often all in one mode) followed by photon-number-bounded operations only, so that
+    # the exact conservation laws apply with the highest Fock level populated
+    full = draw(st.integers(0, 2)) == 0
     for m in range(n):
-        k = draw(st.integers(0, min(2, budget)))
+        if full:
+            k = budget if (m == n - 1 or draw(st.booleans())) else draw(st.integers(0, budget))
+        else:
+            k = draw(st.integers(0, min(2, budget)))
         budget -= k
         preps.append(["Fock", [k], [m], {}])
-    ops_ = draw(gen.op_list(n, F_ALPH, "fock", 2, 6, no_mz_dagger=True))
+    if full:
+        preps = list(draw(st.permutations(preps)))
+        preps = [[p_[0], p_[1], [m], {}] for m, p_ in enumerate(preps)]
+        ops_ = draw(gen.op_list(n, ["Rgate", "BSgate", "MZgate", "Kgate", "CKgate", "LossChannel", "LossChannel", "Fouriergate", "sMZgate"], "fock", 2, 6, no_mz_dagger=True))
+    else:
+        ops_ = draw(gen.op_list(n, F_ALPH, "fock", 2, 6, no_mz_dagger=True))
     for s in ops_:
         if s[0] == "Fock":
             s[1][0] = min(s[1][0], D - 1)
@@ -235,9 +247,21 @@ def bng_case(draw):
     n = draw(st.integers(1, 2))
     preps = []
     for m in range(n):
-        kind = draw(st.sampled_from(["Catstate", "Fock", "Squeezed"]))
+        kind = draw(st.sampled_from(["Catstate", "Fock", "Squeezed", "Catstate_opts", "GKP"]))
         if kind == "Catstate":
             preps.append(["Catstate", [draw(gen.fl(0.4, 1.5)), draw(st.sampled_from([0.0, 1.0]))], [m], {}])
+        elif kind == "Catstate_opts":
+            # the constructor options: representation and the truncation parameters of the real representation
+            kw = {"representation": draw(st.sampled_from(["real", "real", "complex"]))}
+            if draw(st.booleans()):
+                kw["ampl_cutoff"] = draw(st.sampled_from([1e-12, 1e-6, 1e-3, 1e-2, 0.1]))
+            if draw(st.booleans()):
+                kw["D"] = draw(st.integers(2, 4))
+            preps.append(["Catstate", [draw(gen.fl(0.4, 2.0)), draw(gen.angle()), draw(st.sampled_from([0, 1, 0.5]))], [m], {"kw": kw}])
+        elif kind == "GKP":
+            kw = {"state": [draw(gen.angle()), draw(gen.angle())], "epsilon": draw(st.sampled_from([0.2, 0.35, 0.5])),
+                  "ampl_cutoff": draw(st.sampled_from([1e-6, 1e-3, 1e-2])), "representation": draw(st.sampled_from(["real", "complex"]))}
+            preps.append(["GKP", [], [m], {"kw": kw}])
         elif kind == "Fock":
             preps.append(["Fock", [draw(st.integers(1, 2 if n == 1 else 1))], [m], {}])
         else:
@@ -277,7 +301,7 @@ def check_bng(ctx, case):
                 if abs(b - T * a) > btol * (1 + abs(a)):
                     return ctx.fail("bosonic.loss_photon_number", "mode %d: %.10g -> %.10g expected %.10g" % (m, a, b, T * a))
         prev = (mu, V)
-    ctx.note(case, nontrivial=True, labels=["backend:bosonic", "bosonic_nongauss"])
+    ctx.note(case, nontrivial=True, labels=["backend:bosonic", "bosonic_nongauss"] + sorted({"prep:" + o[0] + ("_opts" if (o[3] if len(o) > 3 else {}).get("kw") else "") for o in ops_[:n]}))
     return None
 
 
@@ -286,8 +310,8 @@ SUBS = [
         shards={"quick": 2, "thorough": 16}, rule="gaussian + bosonic: predicates and step relations after every prefix"),
     Sub("fock_physical", check=check_fock, strategy=lambda ctx: fock_case(), examples={"quick": 40, "thorough": 400},
         shards={"quick": 3, "thorough": 16}, rule="fock pure/mixed: hermitian, PSD, trace<=1 and step relations after every prefix"),
-    Sub("bosonic_nongauss", check=check_bng, strategy=lambda ctx: bng_case(), examples={"quick": 40, "thorough": 400},
-        shards={"quick": 1, "thorough": 8}, rule="bosonic with cat/Fock preparations: weights, total-covariance uncertainty, conservation"),
+    Sub("bosonic_nongauss", check=check_bng, strategy=lambda ctx: bng_case(), examples={"quick": 50, "thorough": 400},
+        shards={"quick": 2, "thorough": 16}, rule="bosonic with cat (both representations, truncation options) / GKP / Fock preparations: weights, total-covariance uncertainty, conservation"),
 ]
 
 MANIFEST = {
